@@ -106,7 +106,7 @@ def genCurrentAgrees (i : StapleIn) : Bool :=
     (match i.responder with | .answer r => [r] | _ => [])
   !(CM.Gen.Fn.translated.contains "currentOCSP") ||
   rs.all (fun r => r.nextUpdate == some 0 ||
-    CM.Gen.Fn.currentOCSP i.now ⟨r.thisUpdate, r.nextUpdate.getD 0⟩ == current i.now r)
+    CM.Gen.Fn.currentOCSP i.now ⟨r.thisUpdate, r.nextUpdate.getD 0, 0⟩ == current i.now r)
 
 def handle (args impl : List String) : String :=
   match args with
@@ -139,6 +139,13 @@ def handle (args impl : List String) : String :=
     | some i, some eo, some es =>
       let e : Entry := { leafNil := false, expired := ex = "1", managed := mg = "1", hasNames := true, ocsp := eo, staple := es }
       let renew : Renew := if rn = "ok" then .ok else if rn = "giveup" then .gaveUp else .fail
+      -- the TRANSLATED `certShouldBeForceRenewed` (CM/Generated/Fn) beside the model's `shouldForce`
+      let code : Status → Int := fun st => match st with | .good => 0 | .revoked => 1 | .unknown => 2
+      let genForce := CM.Gen.Fn.certShouldBeForceRenewed
+        ⟨(if e.hasNames then ["n".toList] else []), e.managed,
+         e.ocsp.map (fun r => ⟨r.thisUpdate, r.nextUpdate.getD 0, code r.status⟩)⟩
+      if CM.Gen.Fn.translated.contains "certShouldBeForceRenewed" && genForce != shouldForce e.managed e.hasNames e.ocsp then
+        reply "translated-definition-differs-from-model" "-" "!" else
       let m := maintain e i (sc = "1") renew
       let showAfter : After → String
         | .kept a b => "kept/" ++ showOptResp a ++ "/" ++ showOptResp b
